@@ -18,10 +18,15 @@ def content(ctx, res):
     g = wire.Gen(ctx.rng)
     n = 150 if ctx.tier == 'quick' else 6000
     cases = []
-    for i in range(n):
+    # servers one after the other in the same process with credentials that a sloppy cache key would confuse
+    SEQ = [(None, 'p'), ('None', 'p'), ('a|b', 'c'), ('a', 'b|c'), ('', None), (None, ''), ('x', None), ('x', 'None'), ('x|None', None),
+           ('u', 'p'), ('u', 'P'), ('u ', 'p'), (' u', 'p'), ('u', 'p')]
+    for i in range(n + len(SEQ)):
         def one(k):
             return [None, '', g.text(allow_none=False, tagged=False), g.text(allow_none=False)][k]
         u, p = one(ctx.rng.randrange(4) if i >= 16 else i % 4), one(ctx.rng.randrange(4) if i >= 16 else (i // 4) % 4)
+        if i >= n:
+            u, p = SEQ[i - n]
         kind = 'meta' if i % 2 else 'data'
         with fixture.patched() as env:
             if kind == 'meta':
@@ -61,8 +66,48 @@ def content(ctx, res):
     return n
 
 
+def start_races(ctx, res):
+    """Server.start on a scheduled thread against the reader and writer it creates, the init request already readable,
+    with LINE-granular preemption: races inside start() / the sender / the request manager that no lock or queue
+    operation separates.  Oracle only."""
+    import dsched
+    import random
+    import shellrun
+    from shellrun import Line, ShellScenario
+    from sx import A
+    n = 240 if ctx.tier == 'quick' else 6000
+    rng = ctx.rng
+    for i in range(n):
+        kind = 'meta' if i % 2 else 'data'
+        text = b'q0|MPI|S|ARI.version|S|1.8.3\r\n' if kind == 'meta' else b'q0|DPI|S|ARI.version|S|1.9.1\r\n'
+        ln = Line(text, [sym('init'), A(0), b'T', b'F', b'F'], 0, 'MPI' if kind == 'meta' else 'DPI', None, 'valid', 'init')
+        sc = ShellScenario(kind, [ln], [[0]], pool=1, cpu=1, handler=None, end='block', start_managed=True,
+                           user=rng.choice([None, 'u']), password=None)
+        s2 = rng.getrandbits(32)
+        r = shellrun.run(sc, dsched.RandomChooser(random.Random(s2)), fine=True, fine_seed=s2)
+        res.evaluations += 1
+        res.count('start-race (line-granular)')
+        for detail, key in shellrun.oracle_c14(r):
+            res.oracle_violations.append({'case': {'scenario': shellprops.scenario_to_json(sc), 'schedule': [c for c, _ in r.taken], 'source': 'fine', 'fine_seed': s2},
+                                          'detail': detail, 'key': dict(key), 'kind': 'schedule'})
+            break
+        if r.crashes:
+            res.oracle_violations.append({'case': {'scenario': shellprops.scenario_to_json(sc), 'schedule': [c for c, _ in r.taken], 'source': 'fine', 'fine_seed': s2},
+                                          'detail': 'a thread died: %r' % (r.crashes[0],), 'key': {'kind': 'crash'}, 'kind': 'schedule'})
+    # keep one violation per kind
+    seen, uniq = set(), []
+    for v in res.oracle_violations:
+        k = repr(sorted(v['key'].items()))
+        if k not in seen or len(uniq) < 3:
+            uniq.append(v)
+        seen.add(k)
+    res.oracle_violations[:] = uniq
+    return n
+
+
 def run(ctx, res):
     shellprops.explore(ctx, res, PID)
+    start_races(ctx, res)
     n = content(ctx, res)
     res.rule += '; content: %d credential configurations (user / password each None, empty, or a C05 text) through both real servers vs the model writer' % n
 
